@@ -1,5 +1,6 @@
 """C45  Immutable check, verify and repair."""
 import os
+import re
 import struct
 
 from core import term as T
@@ -450,11 +451,11 @@ def field_sweep(ctx, i, jobs):
         # every mutation class at least once (round-robin over the shares), then a random remainder
         by_label = {}
         for s, label, newp in muts_all:
-            by_label.setdefault(label.split("+")[0].split("-64")[0], []).append((s, label, newp))
-        picked = [r.choice(v) for _k, v in sorted(by_label.items())]
-        budget = ctx.n(45, 120)
-        r.shuffle(picked)
-        picked = picked[:budget]
+            by_label.setdefault("truncate" if label.startswith("truncate") else re.sub(r"[+-]\d+$", "", label), []).append((s, label, newp))
+        picked = [r.choice(v) for _k, v in sorted(by_label.items())]       # every class, none dropped
+        extra = [m for m in muts_all if m not in picked]
+        r.shuffle(extra)
+        picked += extra[:ctx.n(8, 60)]
         for s, label, newp in picked:
             raw = raws[(s.server, s.shnum)]
             head, _p, leases = C.split_container(raw)
